@@ -23,9 +23,19 @@ def run(ctx):
     r = vlib.run_tlc(ctx, "MC_AnkoWalker", "MC_AnkoWalker.cfg", workers=4, timeout=900, want_lines=False)
     vlib.tlc_ok(ctx, r, "MC_AnkoWalker")
     srcs = grammarcorpus.sources() + rawcorpus.cases()
+    # programs whose trees are very deep or very long (chains of operators, calls, members, parentheses, blocks; long lists and statement lists): size decides nothing
+    for n in (() if os.environ.get("C17_NODEEP") else ((600,) if ctx.quick() else (600, 1500))):
+        srcs += [{"id": "deep|plus-%d" % n, "src": "x = a" + " + a" * n}, {"id": "deep|calls-%d" % n, "src": "b" + ".add(1)" * n}, {"id": "deep|parens-%d" % n, "src": "z = " + "(" * (2 * n) + "a" + ")" * (2 * n)},
+                 {"id": "deep|ifs-%d" % n, "src": "if a {\n" * n + "f()\n" + "}\n" * n}]
+        if not ctx.quick():
+            srcs += [{"id": "deep|elseifs-%d" % n, "src": "if a {\n f()\n}" + " else if b {\n g()\n}" * n}, {"id": "deep|members-%d" % n, "src": "y = b" + ".m" * n}, {"id": "deep|index-%d" % n, "src": "w = a" + "[0]" * n}, {"id": "deep|unary-%d" % n, "src": "u = " + "!" * n + "a"},
+                     {"id": "deep|funcs-%d" % n, "src": "func() {\n" * min(n, 700) + "f()\n" + "}()\n" * min(n, 700)}, {"id": "deep|list-%d" % n, "src": "l = [" + ", ".join(["a"] * n) + "]"},
+                     {"id": "deep|stmts-%d" % n, "src": "f(a)\n" * n}, {"id": "deep|tern-%d" % n, "src": "t = " + "a ? b : " * n + "c"}, {"id": "deep|nested-list-%d" % n, "src": "n = " + "[" * n + "a" + "]" * n}]
     # language-core corpora rendered to source by the vm harness' renderer
     rend = vlib.build_harness(ctx, "render")
     fam = progs.fam_c09() + progs.fam_closures() + progs.fam_c07() + progs.rand_programs(ctx.seed, 150 if ctx.quick() else 3000)
+    if ctx.quick():
+        fam = fam[ctx.seed % 3::3]          # (the families are large and repetitive in node kinds: a third of them per quick run, chosen by the seed)
     pj = os.path.join(ctx.work, "fam.ndjson")
     vlib.write_ndjson(pj, [{"id": p["id"], "prog": p["prog"]} for p in fam])
     sj = os.path.join(ctx.work, "fam_src.ndjson")
